@@ -280,9 +280,16 @@ impl<'a> LoweringManager<'a> {
               return wasm::InlineInstruction::I31New(Box::new(lowered));
             }
             // Vec element-typed args: the WAT slot is (ref null eq). i32 args (Vec<int>)
-            // need i31 boxing; reference args fit via subtyping with no extra work.
+            // need boxing; reference args fit via subtyping with no extra work.
+            // An i31 only holds 31 bits, so only literals known to fit are boxed inline;
+            // other values go through __$boxInt, which falls back to a heap box.
             if Some(i) == vec_element_arg && lir_expr_is_i32(arg) {
-              return wasm::InlineInstruction::I31New(Box::new(lowered));
+              return match arg {
+                lir::Expression::Int32Literal(n) if (-(1 << 30)..(1 << 30)).contains(n) => {
+                  wasm::InlineInstruction::I31New(Box::new(lowered))
+                }
+                _ => wasm::InlineInstruction::DirectCall(mir::FunctionName::BOX_INT, vec![lowered]),
+              };
             }
             if let (Some(param_types), lir::Expression::Variable(var_name, _)) =
               (callee_param_types, arg)
